@@ -117,4 +117,46 @@ def docOk (d : DocG) : Bool :=
   nodesOk [Node.grp (docNodes d)] none &&
   uOk 1 [] 0 (toksNode (Node.grp (docNodes d)))
 
+/-! ### linear-time form of the side condition (`Proofs/Rtf.lean`: `docOkFast d = docOk d`) -/
+
+mutual
+/-- the first character the node prints (`none` for an empty `txt`) -/
+def firstCharNode : Node → Option Char
+  | .cw _ _ _ => some '\\'
+  | .sym _ => some '\\'
+  | .hex _ _ => some '\\'
+  | .txt s => s.head?
+  | .nl => some '\n'
+  | .grp _ => some '{'
+/-- the first character of the first node that prints something -/
+def firstChar : List Node → Option Char
+  | [] => none
+  | n :: ns => match firstCharNode n with
+    | some c => some c
+    | none => firstChar ns
+end
+
+mutual
+def nodeOkFast : Node → (next : Option Char) → Bool
+  | .cw n p sp, next => nameOk n && (sp || match next with
+      | some c => !badAfter p c
+      | none => true)
+  | .sym c, _ => validSym c
+  | .hex a b, _ => (hexVal a).isSome && (hexVal b).isSome
+  | .txt s, _ => s.all safeChar
+  | .nl, _ => true
+  | .grp body, _ => nodesOkFast body (some '}')
+def nodesOkFast : List Node → (after : Option Char) → Bool
+  | [], _ => true
+  | n :: ns, after =>
+    nodeOkFast n (match firstChar ns with
+      | some c => some c
+      | none => after) && nodesOkFast ns after
+end
+
+def docOkFast (d : DocG) : Bool :=
+  plainNodes d.head && d.blocks.all blockOk &&
+  nodesOkFast [Node.grp (docNodes d)] none &&
+  uOk 1 [] 0 (toksNode (Node.grp (docNodes d)))
+
 end Model.Rtf
